@@ -105,7 +105,31 @@ def _tree_has(e, pred, depth=0):
 
 
 def _is_len(e):
-    return e[0] == 'call' and last_seg(strip_generics(e[1])) == 'len' and 'Metadata' in e[1]
+    """the current usable length: the file's length, or the smaller of it and something else (`metadata.len().min(map.len())`: what is mapped is what counts when an
+    earlier remap failed).  `LEN + x >= REQ` whenever `x >= REQ - LEN` holds for either form; `_single_len` makes sure one tree does not mix the two"""
+    if e[0] == 'call' and last_seg(strip_generics(e[1])) == 'len' and 'Metadata' in e[1]:
+        return True
+    return e[0] == 'call' and last_seg(strip_generics(e[1])) == 'min' and len(e[2]) == 2 and any(_is_len(x) for x in e[2])
+
+
+def _single_len(e):
+    """all current-length subexpressions of e are one and the same expression"""
+    found = set()
+
+    def walk(x, depth=0):
+        if depth > 60 or not isinstance(x, tuple) or not x:
+            return
+        if _is_len(x):
+            found.add(repr(x))
+            return
+        for y in x[1:]:
+            if isinstance(y, tuple):
+                walk(y, depth + 1)
+            elif isinstance(y, list):
+                for z in y:
+                    walk(z, depth + 1)
+    walk(e)
+    return len(found) <= 1
 
 
 def _is_req(e):
@@ -324,6 +348,20 @@ def grow(ctx, rule='C16.grow'):
                         res.append(bad(rule, '%s | file written before it is sized' % fn.qual,
                                        'the write at %s can run before the growth decision at %s: writing past the end of the file extends it, so the decision may find the file long '
                                        'enough, skip the growth and leave the old, shorter map in place' % (fn.loc(b3), fn.loc(decision_blocks[0])), where=fn.loc(b3)))
+        # (g) the decision also looks at how much of the file is MAPPED.  The growth primitive and the remap are separate fallible steps; when the second fails the file is
+        #     long enough and the map is not, and a decision taken from the file length alone never renews the map: later commits publish pages beyond it
+        if decided:
+            def _map_len(x):
+                return x[0] == 'call' and last_seg(strip_generics(x[1])) == 'len' and 'Metadata' not in x[1] and \
+                    _tree_has(x, lambda y: y[0] == 'field' and y[2] and y[2][-1] in ('data', 'pages'))
+            trees = [du.sym(fn.term(a)['discr']) for a in decision_blocks]
+            if any(tr[0] in ('phi', '?') or _tree_has(tr, _map_len) for tr in trees):
+                res.append(ok(rule, 'the growth decision at %s takes the length of the map into account' % fn.loc(decision_blocks[0]), sites=1))
+            else:
+                res.append(bad(rule, '%s | growth decided from the file length alone' % fn.qual,
+                               'the decision at %s whether to grow and remap compares the required size with the length of the FILE only: if an earlier commit extended the file '
+                               'and then failed to map it again (the remap is a separate fallible step), the file is long enough, nothing is remapped, and this and later transactions '
+                               'use pages beyond the end of the map' % fn.loc(decision_blocks[0]), where=fn.loc(decision_blocks[0])))
         if not decided:
             res.append(bad(rule, '%s | growth not decided from required size and file length' % fn.qual,
                            'the file growth at %s is not controlled by a comparison of the current file length with num_pages * pagesize' % fn.loc(bb), where=fn.loc(bb)))
@@ -338,7 +376,7 @@ def grow(ctx, rule='C16.grow'):
         if len(t['args']) > 1:
             e = du.sym(t['args'][1])
             looped = None
-            if 'GE_REQ' not in size_facts(e):
+            if 'GE_REQ' not in size_facts(e) or not _single_len(e):
                 # growth in steps: the primitive is followed by a loop (it may be the loop's own body) that is left only when the file, or the map made from it, has
                 # reached the required size, and that grows again otherwise
                 gsites = {b for (_f, b) in sites}
@@ -352,7 +390,7 @@ def grow(ctx, rule='C16.grow'):
                         looped = fn.loc(a)
             if looped:
                 res.append(ok(rule, 'the file is grown step by step at %s until its length reaches num_pages * pagesize (loop test at %s)' % (fn.loc(bb), looped), sites=1))
-            elif 'GE_REQ' in size_facts(e):
+            elif 'GE_REQ' in size_facts(e) and _single_len(e):
                 res.append(ok(rule, 'new file size at %s is provably >= num_pages * pagesize (length + a rounded-up amount that covers the shortfall)' % fn.loc(bb), sites=1))
             else:
                 res.append(bad(rule, '%s | new size not provably at least the required size' % fn.qual,
@@ -736,6 +774,62 @@ def results_option_free(ctx, rule='C16.results-option-free'):
     return res
 
 
+def block_extent(ctx, rule='C16.block-extent'):
+    """the bytes a transaction buffers for an allocated block (and later writes at the block's offset) are the bytes that were asked for, or the whole block
+    (`pages * pagesize`): never a length rounded to some other unit.  The block was sized by dividing the request by the page size; a length rounded up to 512-byte sectors
+    still fits when the page size is a multiple of 512 and spills into the next page's header when it is 1032, 3000 or 5000"""
+    res = []
+    F = ctx.facts
+    try:
+        (txalloc,) = ctx.need('tx-alloc-role')
+    except AnchorError as e:
+        return [unresolved(rule, str(e))]
+    X = ctx.A.xf(txalloc)
+    du = ctx.du(X)
+    n = 0
+
+    def fine(e):
+        if e[0] == 'arg':
+            return True
+        if e[0] == 'un' and e[1] in ('cast', 'Cast'):
+            return fine(e[2])
+        if e[0] == 'bin' and e[1].startswith('Mul'):
+            return _tree_has(e, lambda x: x[0] == 'field' and x[2] and x[2][-1] == 'pagesize')
+        if e[0] == 'call' and last_seg(strip_generics(e[1])) in ('from', 'into', 'try_into', 'unwrap', 'try_from') and e[2]:
+            return fine(e[2][0])
+        return False
+
+    for bb in sorted(X.reachable_blocks()):
+        t = X.term(bb)
+        c = callee_of(t) if t['k'] == 'call' else None
+        exprs = []
+        if c and strip_generics(c['path']).endswith('Layout::from_size_align') and t['args']:
+            exprs.append(('arena layout', du.sym(t['args'][0])))
+        if c and last_seg(strip_generics(c['path'])) == 'insert' and len(t['args']) == 3 and has_field(du.slice_operand(t['args'][0])[1], 'TxFreelist', 'pages'):
+            # the value recorded for the block: a `(ptr, len)` tuple or a small struct; its usize component is the length the commit will write
+            vl = op_local(t['args'][2])
+            for b2 in X.reachable_blocks():
+                for st in X.blocks[b2]['stmts']:
+                    if st['k'] == 'assign' and st['p']['l'] == vl and not st['p']['pr'] and st['rv']['k'] == 'agg':
+                        for o in st['rv']['ops']:
+                            ol = op_local(o)
+                            if (ol is not None and X.locals[ol]['ty'] == 'usize') or (o.get('k') == 'const' and o.get('c', {}).get('ty') == 'usize'):
+                                exprs.append(('recorded length', du.sym(o)))
+        for what, e in exprs:
+            n += 1
+            if fine(e):
+                res.append(ok(rule, '%s at %s is the requested length (or whole pages)' % (what, X.loc(bb)), sites=1))
+            else:
+                res.append(bad(rule, '%s | %s is %s' % (txalloc.qual, what, _fmt(e)[:80]),
+                               'the %s of an allocated block at %s is `%s`, neither the requested byte count nor a whole number of pages: for page sizes that are no multiple of the '
+                               'rounding unit the buffered block is longer than the pages reserved for it, and the commit writes over the page behind it' % (what, X.loc(bb), _fmt(e)[:160]),
+                               where=X.loc(bb)))
+    f = floor(rule, 'lengths of buffered blocks in the allocation wrapper', n, 2)
+    if f:
+        res.append(f)
+    return res
+
+
 def flags_flow(ctx, rule='C16.flags-flow'):
     """sibling call sites must agree on which option feeds a boolean parameter (an option wired to another option's parameter changes
     behaviour under that option only)"""
@@ -837,7 +931,11 @@ def run(ctx, tier):
     results += no_pow2_arith(ctx)
     results += remap_always(ctx)
     results += flags_flow(ctx)
+    import c05
     results += results_option_free(ctx)
+    results += block_extent(ctx)
+    results += commit.complete_writes(ctx, rule='C16.complete-writes')
+    results += c05.freelist_is_set(ctx, rule='C16.freelist-set')
     import c15
     results += c15.open_refusals(ctx, rule='C16.open-refusals')
     import c05
@@ -852,7 +950,7 @@ def run(ctx, tier):
     return dict(
         results=results, stats=dict(ctx.stats),
         explanation=(
-            'Equality of results across the configuration product is a run-time comparison and is (results-option-free) no crate error outside open / header selection / strict check is control-dependent on the page size or a flag; (open-refusals) refusal sites of open do not grow; (run-length) page runs are overflow + 1. NOT decided. Decided: (align-guard) the crate views bytes at id*pagesize as Page '
+            'Equality of results across the configuration product is a run-time comparison and is NOT decided. Decided: (block-extent) buffered block lengths are the request or whole pages; (complete-writes) examined write counts sit in a loop; (grow g) the growth decision looks at the mapped length. (results-option-free) no crate error outside open / header selection / strict check is control-dependent on the page size or a flag; (open-refusals) refusal sites of open do not grow; (run-length) page runs are overflow + 1; (align-guard) the crate views bytes at id*pagesize as Page '
             '(counted), therefore every public store of a caller-supplied page size is dominated by a divisibility test against the alignment of Page whose failing edge does not return '
             '("every value the builder accepts must work or be refused cleanly"); (O6) the strict-mode check runs after all data writes, growth and remap and before the header write, '
             'only under the strict_mode flag; (grow) the growth decision compares the file length with num_pages*pagesize after the final high-water mark is known, the new size derives '
